@@ -2,11 +2,12 @@
 from harness import qcommon
 from vlib.runner import CheckSpec, Cube
 from vlib.stubs import qsim
-from vlib.stubs.qsim import ADD, DISCONNECT, FINISH, KILL, PULL, READD, RUN, TICK, WAIT, WATCHDOG
+from vlib.stubs.qsim import ADD, DISCONNECT, DROP, FINISH, KILL, PULL, READD, RUN, TICK, WAIT, WATCHDOG
 
 PROPS = ("C17",)
 FULL = (ADD, PULL, RUN, FINISH, KILL, TICK, DISCONNECT, WAIT, READD, WATCHDOG)
 ORDER = (ADD, PULL, RUN, TICK)  # priority / FIFO / timeout ordering needs several jobs: deeper, smaller alphabet
+DROPS = (ADD, DROP, WAIT, KILL)  # qdrop: a marked job is forgotten only after it has finished and been waited for
 ORDER_Q = (ADD, PULL, RUN)  # quick tier: without the clock (deadlines stay concrete)
 FINAL = (ADD, PULL, FINISH, KILL, TICK, DISCONNECT, RUN)  # races between finish / kill / timeout / disconnect
 
@@ -62,6 +63,7 @@ def build(tier: str) -> CheckSpec:
     if tier == "quick":
         cubes += qcommon.bmc_cubes(h_bmc, "full", 3, FULL, 2, 200, PROPS)
         cubes += qcommon.bmc_cubes(h_bmc, "order", 4, ORDER_Q, 3, 200, PROPS)
+        cubes += qcommon.bmc_cubes(h_bmc, "drop", 4, DROPS, 2, 200, PROPS)
         cubes += qcommon.nf_cubes(h_nf, "nf1", 1, 2, FULL, 200, PROPS)
         cubes += qcommon.nf_cubes(h_nf, "nf2", 2, 1, FULL, 200, PROPS)
         b = {"full": 3, "order": 4, "normal-form prefix": "1 staged job + 2 symbolic operations; 2 staged jobs + 1"}
@@ -69,6 +71,7 @@ def build(tier: str) -> CheckSpec:
         cubes += qcommon.bmc_cubes(h_bmc, "full", 4, FULL, 3, 2400, PROPS)
         cubes += qcommon.bmc_cubes(h_bmc, "order", 5, ORDER, 3, 2400, PROPS)
         cubes += qcommon.bmc_cubes(h_bmc, "final", 5, FINAL, 3, 2400, PROPS)
+        cubes += qcommon.bmc_cubes(h_bmc, "drop", 5, DROPS, 3, 2400, PROPS)
         cubes += qcommon.nf_cubes(h_nf, "nf2", 2, 2, FULL, 2400, PROPS)
         cubes += qcommon.nf_cubes(h_nf, "nf3", 3, 1, FULL, 2400, PROPS)
         b = {"full": 4, "order": 5, "final": 5, "normal-form prefix": "2 staged jobs + 2 symbolic operations; 3 staged jobs + 1"}
